@@ -54,8 +54,8 @@ let rec int_of_pos (p : positive) : int =
   match p with XH -> 1 | XO q -> 2 * int_of_pos q | XI q -> 2 * int_of_pos q + 1
 let z_of_int (n : int) : z = if n = 0 then Z0 else if n > 0 then Zpos (pos_of_int n) else Zneg (pos_of_int (-n))
 let int_of_z (x : z) : int = match x with Z0 -> 0 | Zpos p -> int_of_pos p | Zneg p -> - (int_of_pos p)
-(*N let n_of_int (n : int) : n = if n = 0 then N0 else Npos (pos_of_int n)
-let int_of_n (x : n) : int = match x with N0 -> 0 | Npos p -> int_of_pos p N*)
+let n_of_int (n : int) : n = if n = 0 then N0 else Npos (pos_of_int n)
+let int_of_n (x : n) : int = match x with N0 -> 0 | Npos p -> int_of_pos p
 let rec nat_of_int (n : int) : nat = if n <= 0 then O else S (nat_of_int (n - 1))
 let rec int_of_nat (x : nat) : int = match x with O -> 0 | S y -> 1 + int_of_nat y
 
@@ -94,10 +94,253 @@ let run_fluent (args : sx list) : sx =
       L [A "ok"; sx_obs (observe ops xs); sx_obs (sobserve ops xs)]
   | _ -> failwith "fluent: bad args"
 
+(* arbitrary-precision integers on the wire, through the extracted decimal functions *)
+let string_of_z (x : z) : string =
+  String.concat "" (List.map (fun c -> String.make 1 (Char.chr (int_of_n c))) (str_of_Z x))
+let z_of_string (s : string) : z =
+  let neg = String.length s > 0 && s.[0] = '-' in
+  let digits = if neg then String.sub s 1 (String.length s - 1) else s in
+  let cps = List.init (String.length digits) (fun i -> n_of_int (Char.code digits.[i])) in
+  let v = dec_value cps in
+  if neg then Z.opp v else v
+let sx_z (x : z) : sx = A (string_of_z x)
+let atom_z (x : sx) : z = match x with A a -> z_of_string a | _ -> failwith "int expected"
+
+(* ---------- strings, JSON, errors ---------------------------------------- *)
+let ustr_of_sx (x : sx) : ustr =
+  match x with
+  | L (A "s" :: cps) -> List.map (fun c -> n_of_int (atom_int c)) cps
+  | _ -> failwith "string expected"
+let sx_ustr (s : ustr) : sx = L (A "s" :: List.map (fun c -> sx_int (int_of_n c)) s)
+
+let rec json_of_sx (x : sx) : json =
+  match x with
+  | A "null" -> JNull
+  | A "true" -> JBool true
+  | A "false" -> JBool false
+  | L [A "i"; v] -> JNum { n_float = false; n_num = atom_z v; n_den = XH }
+  | L [A "f"; n; d] -> JNum { n_float = true; n_num = atom_z n; n_den = (match atom_z d with Zpos p -> p | _ -> XH) }
+  | L (A "s" :: _) -> JStr (ustr_of_sx x)
+  | L (A "a" :: items) -> JArr (List.map json_of_sx items)
+  | L (A "o" :: members) ->
+      JObj (List.map (fun m -> match m with L [k; v] -> (ustr_of_sx k, json_of_sx v) | _ -> failwith "member") members)
+  | _ -> failwith "json expected"
+
+let rec sx_json (j : json) : sx =
+  match j with
+  | JNull -> A "null"
+  | JBool true -> A "true"
+  | JBool false -> A "false"
+  | JNum n ->
+      if n.n_float then L [A "f"; sx_z n.n_num; sx_z (Zpos n.n_den)]
+      else if n.n_den = XH then L [A "i"; sx_z n.n_num]
+      else L [A "q"; sx_z n.n_num; sx_z (Zpos n.n_den)]
+  | JStr s -> sx_ustr s
+  | JArr l -> L (A "a" :: List.map sx_json l)
+  | JObj l -> L (A "o" :: List.map (fun (k, v) -> L [sx_ustr k; sx_json v]) l)
+
+let sx_part (p : part) : sx =
+  match p with PKey k -> L [A "k"; sx_ustr k] | PIdx i -> L [A "x"; sx_int (int_of_nat i)]
+let sx_loc (l : loc) : sx = L (List.map sx_part l)
+
+let exn_name (e : exn) : string =
+  match e with
+  | EJsonPath KSyntax -> "jp-syntax" | EJsonPath KType -> "jp-type" | EJsonPath KIndex -> "jp-index"
+  | EJsonPath KName -> "jp-name" | EJsonPath KRecursion -> "jp-recursion"
+  | EPointer KPtrSyntax -> "ptr-syntax" | EPointer KPtrIndex -> "ptr-index"
+  | EPointer KPtrKey -> "ptr-key" | EPointer KPtrType -> "ptr-type"
+  | ERelPointer KRelSyntax -> "rel-syntax" | ERelPointer KRelIndex -> "rel-index"
+  | EPatch KPatch -> "patch" | EPatch KPatchTest -> "patch-test"
+  | EBuiltin BValueError -> "builtin-ValueError" | EBuiltin BTypeError -> "builtin-TypeError"
+  | EBuiltin BKeyError -> "builtin-KeyError" | EBuiltin BIndexError -> "builtin-IndexError"
+  | EBuiltin BAttributeError -> "builtin-AttributeError" | EBuiltin BOverflowError -> "builtin-OverflowError"
+  | EBuiltin BReError -> "builtin-error" | EBuiltin BUnicodeDecodeError -> "builtin-UnicodeDecodeError"
+  | EBuiltin BAssertionError -> "builtin-AssertionError" | EBuiltin BJSONDecodeError -> "builtin-JSONDecodeError"
+  | EOutOfFuel -> "fuel" | EUnsupported -> "unsupported"
+
+let sx_result (f : 'a -> sx) (r : 'a result) : sx =
+  match r with Ok a -> L [A "ok"; f a] | Err e -> L [A "err"; A (exn_name e)]
+let sx_option (f : 'a -> sx) (o : 'a option) : sx =
+  match o with Some a -> L [A "some"; f a] | None -> A "none"
+
+(* ---------- pointers ----------------------------------------------------- *)
+let sx_ppart (p : ppart) : sx =
+  match p with PInt z -> L [A "int"; sx_z z] | PStr s -> L [A "str"; sx_ustr s]
+let ppart_of_sx (x : sx) : ppart =
+  match x with
+  | L [A "int"; z] -> PInt (atom_z z)
+  | L [A "str"; s] -> PStr (ustr_of_sx s)
+  | _ -> failwith "ppart expected"
+let sx_pointer (p : pointer) : sx = L (List.map sx_ppart p)
+let sx_rv (r : rv) : sx =
+  match r with
+  | RNode (l, v) -> L [A "node"; sx_loc l; sx_json v]
+  | RVal v -> L [A "val"; sx_json v]
+
+(* (ptr-resolve <mode> <text> <doc> <default|none>) *)
+let run_ptr_resolve (args : sx list) : sx =
+  match args with
+  | [mode; text; doc; dflt] ->
+      let mode = atom_bool mode in
+      let s = ustr_of_sx text in
+      let d = json_of_sx doc in
+      let parsed = parse mode s in
+      let model =
+        match parsed with
+        | Err e -> L [A "parse-err"; A (exn_name e)]
+        | Ok p ->
+            L [A "parsed"; sx_pointer p; sx_ustr (encode p);
+               sx_result sx_rv (resolve p d);
+               sx_result sx_bool (exists_ p d);
+               (match dflt with A "none" -> A "none" | dj -> sx_result sx_rv (resolve_default p d (json_of_sx dj)))] in
+      let syntax = rfc6901_syntax s in
+      let ts = rfc_tokens s in
+      let spec =
+        L [sx_bool syntax;
+           sx_option (fun (l, v) -> L [sx_loc l; sx_json v]) (if syntax then rfc_eval ts d else None);
+           L [A "outside-ext"; sx_bool (outside_extensions ts)];
+           L [A "no-backslash"; sx_bool (no_backslash s)];
+           L [A "within-limits"; sx_bool (tokens_within_limits ts)];
+           L [A "wf"; sx_bool (wf_json d)];
+           L [A "tokens"; L (List.map sx_ustr ts)];
+           L [A "spell"; sx_ustr (rfc_spell ts)]] in
+      L [A "ok"; model; spec]
+  | _ -> failwith "ptr-resolve: bad args"
+
+(* (ptr-loc <mode> <doc> <loc as list of (k s)/(x i)>) : the pointer spelled from a location *)
+let part_of_sx (x : sx) : part =
+  match x with
+  | L [A "k"; s] -> PKey (ustr_of_sx s)
+  | L [A "x"; i] -> PIdx (nat_of_int (atom_int i))
+  | _ -> failwith "part expected"
+
+let run_ptr_spell (args : sx list) : sx =
+  match args with
+  | [L parts] -> L [A "ok"; sx_ustr (spell_loc (List.map part_of_sx parts))]
+  | _ -> failwith "ptr-spell: bad args"
+
+(* pointer algebra: a tiny expression language evaluated in the model
+     (parse mode s) (from-parts mode (parts)) (parent e) (div e s) (join e s...) (of-parts (parts)) *)
+let rec eval_pexpr (x : sx) : pointer result =
+  match x with
+  | L [A "parse"; mode; s] -> parse (atom_bool mode) (ustr_of_sx s)
+  | L [A "from-parts"; mode; L ps] -> from_parts (atom_bool mode) (List.map ppart_of_sx ps)
+  | L [A "of-parts"; L ps] -> Ok (List.map ppart_of_sx ps)
+  | L [A "parent"; e] -> (match eval_pexpr e with Ok p -> Ok (parent p) | Err e -> Err e)
+  | L [A "div"; e; s] -> (match eval_pexpr e with Ok p -> truediv p (ustr_of_sx s) | Err e -> Err e)
+  | L (A "join" :: e :: ss) -> (match eval_pexpr e with Ok p -> join p (List.map ustr_of_sx ss) | Err e -> Err e)
+  | _ -> failwith "pexpr expected"
+
+(* the same expressions evaluated on RFC 6901 reference tokens with the specification functions;
+   None when some text is outside RFC 6901 syntax *)
+let rec removelast_l (l : 'a list) : 'a list =
+  match l with [] -> [] | [_] -> [] | x :: r -> x :: removelast_l r
+
+let tilde_ok_b (s : ustr) : bool = rfc6901_syntax (ch_slash :: s)
+
+let rec spec_pexpr (x : sx) : (ustr list) option =
+  match x with
+  | L [A "parse"; _; s] -> let s = ustr_of_sx s in if rfc6901_syntax s then Some (rfc_tokens s) else None
+  | L [A "from-parts"; _; L ps] -> Some (List.map (fun p -> part_text (ppart_of_sx p)) ps)
+  | L [A "of-parts"; L ps] -> Some (List.map (fun p -> part_text (ppart_of_sx p)) ps)
+  | L [A "parent"; e] -> (match spec_pexpr e with Some ts -> Some (removelast_l ts) | None -> None)
+  | L [A "div"; e; s] -> spec_div (spec_pexpr e) (ustr_of_sx s)
+  | L (A "join" :: e :: ss) -> List.fold_left (fun acc t -> spec_div acc (ustr_of_sx t)) (spec_pexpr e) ss
+  | _ -> failwith "pexpr expected"
+and spec_div (base : (ustr list) option) (t : ustr) : (ustr list) option =
+  match base with
+  | None -> None
+  | Some ts ->
+      if starts_with_ch ch_slash t then (if rfc6901_syntax t then Some (rfc_tokens t) else None)
+      else if tilde_ok_b t then Some (ts @ rfc_tokens (ch_slash :: t)) else None
+
+let rec pexpr_texts (x : sx) : ustr list =
+  match x with
+  | L [A "parse"; _; s] -> [ustr_of_sx s]
+  | L [A "from-parts"; _; L ps] -> List.map (fun p -> part_text (ppart_of_sx p)) ps
+  | L [A "of-parts"; L ps] -> List.map (fun p -> part_text (ppart_of_sx p)) ps
+  | L [A "parent"; e] -> pexpr_texts e
+  | L [A "div"; e; s] -> ustr_of_sx s :: pexpr_texts e
+  | L (A "join" :: e :: ss) -> List.map ustr_of_sx ss @ pexpr_texts e
+  | _ -> []
+
+let rec is_prefix (a : ustr list) (b : ustr list) : bool =
+  match a, b with
+  | [], _ -> true
+  | x :: a', y :: b' -> ustr_eqb x y && is_prefix a' b'
+  | _ :: _, [] -> false
+
+(* (ptr-alg <expr1> <expr2> <doc>) -> for each: parts, text, tokens; then eq, rel12, rel21, resolve1 *)
+let run_ptr_alg (args : sx list) : sx =
+  match args with
+  | [e1; e2; doc] ->
+      let d = json_of_sx doc in
+      let r1 = eval_pexpr e1 and r2 = eval_pexpr e2 in
+      let show r = sx_result (fun p -> L [sx_pointer p; sx_ustr (encode p); L (List.map sx_ustr (tokens p))]) r in
+      let both f = match r1, r2 with Ok a, Ok b -> f a b | _ -> A "na" in
+      L [A "ok"; show r1; show r2;
+         both (fun a b -> sx_bool (ptr_eqb a b));
+         both (fun a b -> sx_bool (is_relative_to a b));
+         both (fun a b -> sx_bool (is_relative_to b a));
+         (match r1 with Ok a -> sx_result sx_rv (resolve a d) | Err _ -> A "na");
+         (match r2 with Ok a -> sx_result sx_rv (resolve a d) | Err _ -> A "na");
+         (let t1 = spec_pexpr e1 and t2 = spec_pexpr e2 in
+          let texts = pexpr_texts e1 @ pexpr_texts e2 in
+          let showt t = sx_option (fun ts -> L [L (List.map sx_ustr ts); sx_ustr (rfc_spell ts);
+                                               sx_option (fun (l, v) -> L [sx_loc l; sx_json v]) (rfc_eval ts d);
+                                               sx_bool (outside_extensions ts)]) t in
+          L [A "spec"; showt t1; showt t2;
+             (match t1, t2 with
+              | Some a, Some b ->
+                  L [sx_bool (List.length a = List.length b && is_prefix a b);
+                     sx_bool (List.length b < List.length a && is_prefix b a);
+                     sx_bool (List.length a < List.length b && is_prefix a b)]
+              | _ -> A "na");
+             L [A "no-backslash"; sx_bool (List.for_all no_backslash texts)];
+             L [A "no-leading-blank"; sx_bool (List.for_all no_leading_blank texts)];
+             L [A "within-limits"; sx_bool (List.for_all (fun t -> tokens_within_limits (rfc_tokens (ch_slash :: t))) texts)]])]
+  | _ -> failwith "ptr-alg: bad args"
+
+(* (rel <mode> <rel text> <base parts>) *)
+let sx_relptr (r : relptr) : sx =
+  L [sx_z r.r_origin; sx_z r.r_index;
+     (match r.r_pointer with SHash -> A "hash" | SPtr p -> sx_pointer p)]
+
+let run_rel (args : sx list) : sx =
+  match args with
+  | [mode; text; L base] ->
+      let mode = atom_bool mode in
+      let s = ustr_of_sx text in
+      let base = List.map ppart_of_sx base in
+      let model =
+        match rel_parse mode s with
+        | Err e -> L [A "parse-err"; A (exn_name e)]
+        | Ok r -> L [A "parsed"; sx_relptr r; sx_ustr (to_text r);
+                     sx_result (fun p -> L [sx_pointer p; sx_ustr (encode p)]) (to_ r base)] in
+      let base_tokens = tokens base in
+      let spec =
+        match draft_parse s with
+        | None -> L [A "not-draft-syntax"]
+        | Some rel ->
+            L [A "draft";
+               L [sx_z rel.d_steps; sx_z rel.d_offset;
+                  (match rel.d_suffix with DHash -> A "hash" | DPtr ts -> L (List.map sx_ustr ts))];
+               sx_option (fun ts -> L [L (List.map sx_ustr ts); sx_ustr (rfc_spell ts)]) (draft_apply rel base_tokens);
+               L [A "offset-applicable"; sx_bool (offset_applicable rel base_tokens)];
+               L [A "no-backslash"; sx_bool (no_backslash s)];
+               L [A "within-limits"; sx_bool (tokens_within_limits base_tokens &&
+                                              (match rel.d_suffix with DHash -> true | DPtr ts -> tokens_within_limits ts))]] in
+      L [A "ok"; model; spec]
+  | _ -> failwith "rel: bad args"
+
 (* ---------- dispatch ---------------------------------------------------- *)
 let dispatch (x : sx) : sx =
   match x with
   | L (A "fluent" :: args) -> run_fluent args
+  | L (A "ptr-resolve" :: args) -> run_ptr_resolve args
+  | L (A "ptr-spell" :: args) -> run_ptr_spell args
+  | L (A "ptr-alg" :: args) -> run_ptr_alg args
+  | L (A "rel" :: args) -> run_rel args
   | _ -> failwith "unknown case kind"
 
 let () =
